@@ -46,6 +46,8 @@ type Origin struct {
 	// CDX: the origin also plays the CDX dedupe server (/web/timemap/cdx); the CDXStallK-th lookup signals CDXEvent and
 	// is held until CDXRelease (or 8 s - the client gives up after 10 s)
 	CDXStallK  int
+	CDXStallOn string // when set: the first lookup whose url parameter contains this text is the one held (instead of the K-th)
+	cdxHeld    bool
 	cdxCount   int
 	CDXEvent   chan string
 	CDXRelease chan struct{}
@@ -99,8 +101,15 @@ func (o *Origin) handle(w http.ResponseWriter, r *http.Request) {
 		o.mu.Lock()
 		o.cdxCount++
 		k := o.cdxCount
+		hold := k == o.CDXStallK
+		if o.CDXStallOn != "" {
+			hold = !o.cdxHeld && strings.Contains(r.URL.Query().Get("url"), o.CDXStallOn)
+			if hold {
+				o.cdxHeld = true
+			}
+		}
 		o.mu.Unlock()
-		if k == o.CDXStallK {
+		if hold {
 			select {
 			case o.CDXEvent <- r.URL.Query().Get("url"):
 			default:
